@@ -868,7 +868,9 @@ def run_impl(case):
                     elif fe == 'v1':
                         async def un(name=name):
                             nn = enc.Name.normalize(name)
-                            if nn not in app._prefix_tree:       # legacy unregister wants a handler to remove
+                            # with and without a callback to remove (register(name, None) installs none; fixed in
+                            # /repo: unregister no longer raises KeyError then)
+                            if nn not in app._prefix_tree and (len(events) + p) % 2:
                                 app.set_interest_filter(nn, dummy)
                             return await app.unregister(name)
                         coro = un()
